@@ -872,7 +872,10 @@ def run_exact(case):
 
 @st.composite
 def s_case_periodic(draw, tier):
-    L = draw(st.integers(4, 6))
+    # two-site periodic DMRG needs L >= 6 (L = 4, 5 raise ValueError / KeyError / try to allocate 78 GiB inside the segment
+    # machinery - outside this property's periodic clause, see notes/C10.md); bonds <= 5 keep a run below ~1 s
+    bsz = draw(st.sampled_from([1, 2]))
+    L = draw(st.integers(4, 6)) if bsz == 1 else draw(st.integers(6, 7))
     c = st.sampled_from([1.0, 0.5, -0.7, 1.3])
     kind = draw(st.sampled_from(["spin", "named"]))
     if kind == "named":
@@ -889,11 +892,10 @@ def s_case_periodic(draw, tier):
             var_one = [[draw(st.integers(0, L - 1)), [["p", draw(c), "Z"]]]]
         hd = {"kind": "spin", "S2": 1, "L": L, "cyclic": True, "two": two, "one": one, "var_two": [], "var_one": var_one,
               "route": "iadd", "var_route": "iadd", "flavor": "heis-like"}
-    bsz = draw(st.sampled_from([1, 2]))
     opts = draw(st.sampled_from([{"periodic_segment_size": 1.0, "periodic_nullspace_fudge_factor": 1e-6},
                                  {"periodic_segment_size": 1.0}]))
     cfg = {"bsz": bsz, "ctor": draw(st.sampled_from(["DMRG", "DMRG%d" % bsz])), "which": "SA",
-           "bond_dims": draw(st.sampled_from([4, 8, [4, 8]])), "cutoffs": draw(st.sampled_from([None, 1e-9, 1e-12])),
+           "bond_dims": draw(st.sampled_from([3, 4, 5, [3, 5]])), "cutoffs": draw(st.sampled_from([None, 1e-9, 1e-12])),
            "p0": None, "seed": draw(A.seeds),
            "stages": [{"max_sweeps": draw(st.integers(2, 4)), "tol_rel": 1e-5, "sweep_sequence": draw(st.sampled_from([None, "RL"]))}],
            "opts": opts}
